@@ -424,7 +424,7 @@ func (s *sys) runBaseChdir(d string) (got, want result) {
 	g.res.Subs[0].ErrPaths, w.res.Subs[0].ErrPaths = nil, nil
 
 	for _, p := range baseProbes {
-		for side, v := range []avfs.VFS{s.wr, s.ref} {
+		for side, v := range []avfs.VFS{s.wr, s.refv} {
 			r := run(v, p)
 
 			for _, sb := range r.Subs {
